@@ -224,10 +224,13 @@ class Result:
         payload = dict(payload)
         payload["property"] = self.pid
         payload["found_failing_input"] = found_input
+        payload["tier"], payload["seed"] = self.tier, self.seed
         json.dump(payload, open(path, "w"), indent=1)
         self.violations.append((path, found_input))
 
     def finish(self):
+        if getattr(self, "replaying", False):
+            return 1 if self.violations else 0      # a replay does not rewrite the evidence file
         os.makedirs(EVID, exist_ok=True)
         ev = {"property_id": self.pid, "tier": self.tier, "seed": self.seed, "level": self.level,
               "coverage": self.cov, "assumptions": self.assumptions, "wall_s": round(time.time() - self.t0, 2),
@@ -248,3 +251,24 @@ def load_known():
     if not os.path.exists(p):
         return {"findings": [], "fixed": []}
     return json.load(open(p))
+
+
+def replay_key(d):
+    """what identifies a failing input inside a replay file"""
+    k = d.get("kind", "")
+    if k.startswith("gen-"):
+        det = d.get("detail")
+        return (k, d.get("decl_sexp"), det[0] if isinstance(det, list) and det else None)
+    if k == "rec-input":
+        return (k, d.get("fn"), d.get("hex"))
+    if k == "cel":
+        return (k, d.get("type"), d.get("expression"), d.get("binding"))
+    if k in ("ctx-cel", "mut"):
+        return (k, d.get("type"), d.get("expression"))
+    if k == "mig":
+        return (k, d.get("source"))
+    if k == "mw":
+        return (k, d.get("type"), d.get("variant"), d.get("body"), d.get("ctx"), d.get("mode"))
+    if k.startswith("iso-"):
+        return (k, d.get("pkg"), d.get("file"), d.get("configuration"))
+    return (k,)
